@@ -92,6 +92,8 @@ pub struct Printer<'a> {
     pub funcs: &'a [FuncDef],
     /// see `Surface::redundant_parens`
     pub redundant: bool,
+    /// the module whose body is being printed, when its own declarations are referred to bare
+    pub cur_module: Option<String>,
 }
 
 impl<'a> Printer<'a> {
@@ -167,8 +169,8 @@ impl<'a> Printer<'a> {
             } => {
                 let f = &self.funcs[*func];
                 let fname = match &f.module {
-                    Some(m) => format!("{m}.{}", f.name),
-                    None => f.name.clone(),
+                    Some(m) if self.cur_module.as_ref() != Some(m) => format!("{m}.{}", f.name),
+                    _ => f.name.clone(),
                 };
                 let mut parts: Vec<String> = vec![fname];
                 for (n, a) in named {
@@ -223,6 +225,8 @@ impl<'a> Printer<'a> {
             SrcKind::Table(t) => ident(t),
             SrcKind::Let(i) => {
                 let l = &lets[*i];
+                // (always by path: inside a module a bare name in `from` denotes a database table,
+                // not the sibling let-table)
                 match &l.module {
                     Some(m) => format!("{m}.{}", ident(&l.name)),
                     None => ident(&l.name),
@@ -369,7 +373,7 @@ fn lit_bare(v: &Val) -> String {
 }
 
 pub fn func_def(f: &FuncDef, funcs: &[FuncDef]) -> String {
-    let p = Printer { funcs, redundant: false };
+    let p = Printer { funcs, redundant: false, cur_module: None };
     let params: Vec<String> = f
         .params
         .iter()
@@ -382,18 +386,12 @@ pub fn func_def(f: &FuncDef, funcs: &[FuncDef]) -> String {
 }
 
 pub fn program(prog: &Prog) -> String {
-    let p = Printer { funcs: &prog.funcs, redundant: prog.surface.redundant_parens };
+    let p = Printer { funcs: &prog.funcs, redundant: prog.surface.redundant_parens, cur_module: None };
     let sep = if prog.surface.newlines { "\n" } else { " | " };
     let mut out = String::new();
     // modules first
+    // (in the declaration order of the let-tables: a later let-table may read an earlier one)
     let mut modules: Vec<String> = vec![];
-    for f in &prog.funcs {
-        if let Some(m) = &f.module {
-            if !modules.contains(m) {
-                modules.push(m.clone());
-            }
-        }
-    }
     for l in &prog.lets {
         if let Some(m) = &l.module {
             if !modules.contains(m) {
@@ -401,8 +399,20 @@ pub fn program(prog: &Prog) -> String {
             }
         }
     }
+    for f in &prog.funcs {
+        if let Some(m) = &f.module {
+            if !modules.contains(m) {
+                modules.push(m.clone());
+            }
+        }
+    }
     for m in &modules {
         out.push_str(&format!("module {m} {{\n"));
+        let pm = Printer {
+            funcs: &prog.funcs,
+            redundant: prog.surface.redundant_parens,
+            cur_module: if prog.surface.bare_in_module { Some(m.clone()) } else { None },
+        };
         for f in prog.funcs.iter().filter(|f| f.module.as_ref() == Some(m)) {
             out.push_str(&format!("  {}\n", func_def(f, &prog.funcs)));
         }
@@ -410,7 +420,7 @@ pub fn program(prog: &Prog) -> String {
             out.push_str(&format!(
                 "  let {} = ({})\n",
                 ident(&l.name),
-                p.pipeline(&l.pipe, &prog.lets, " | ")
+                pm.pipeline(&l.pipe, &prog.lets, " | ")
             ));
         }
         out.push_str("}\n");
